@@ -33,8 +33,8 @@ and passes without it, the touched packages' own tests still pass) before the pr
 /repo + patch (`seedrun.sh`, through the build overlay; /repo untouched). Two rounds: one change per property
 (`<id>`), then a second, different change for 24 properties (`<id>-2`; the sub-agents were told what the first
 round had used). "Missed ..." rows are changes that the check as built at that time did not report; the check was
-then strengthened (never the other way round) and the change re-verified. Two second-round changes (C03-2, C07-2:
-foreign-key cascades) are reported by C08, not by the property's own concurrent harness. After the last change to any
+then strengthened (never the other way round) and the change re-verified. One second-round change (C07-2, a
+foreign-key cascade) is reported by C08, not by the property's own concurrent harness (C03-2 by both). After the last change to any
 check all 68 stored changes were run once more against the final checks: every one is reported
 (`/verif/seeded/RESULTS.md`); so are the ~210 overlay-only mutants (`./mutants_all.sh`).
 
